@@ -115,12 +115,42 @@ class Acc:
         self.capped += o.capped
 
 
+class _ItemTimeout(BaseException):
+    pass
+
+
+ITEM_TIMEOUT = {"quick": float(os.environ.get("VERIF_ITEM_TIMEOUT_QUICK", "420")), "thorough": float(os.environ.get("VERIF_ITEM_TIMEOUT_THOROUGH", "2400"))}
+
+
 def _worker_entry(args):
+    """Runs one work item under a watchdog: code under test that never returns (a livelock in a parser, a connector spinning at one
+    virtual instant, a state space blown up by a defect) is reported as a violation instead of hanging the check."""
+    import signal
+
     func, item, seed, tier = args
+
+    def on_alarm(signum, frame):
+        raise _ItemTimeout()
+
+    old = None
+    try:
+        old = signal.signal(signal.SIGALRM, on_alarm)
+        signal.setitimer(signal.ITIMER_REAL, ITEM_TIMEOUT.get(tier, 420))
+    except (ValueError, AttributeError):
+        old = None
     try:
         return func(item, seed, tier)
+    except _ItemTimeout:
+        acc = Acc()
+        acc.case(key=("timeout", repr(item)[:200]), outcome="work-item-does-not-terminate")
+        acc.violation("work-item-does-not-terminate", "timeout", {"item": repr(item)[:400]}, {"timeout_s": ITEM_TIMEOUT.get(tier), "note": "one unit of exploration that normally takes seconds did not finish: livelock in the code under test or a state space blown up by a defect"})
+        return acc
     except BaseException:  # noqa: BLE001
         return ("__harness_error__", traceback.format_exc(), repr(item)[:500])
+    finally:
+        if old is not None:
+            signal.setitimer(signal.ITIMER_REAL, 0)
+            signal.signal(signal.SIGALRM, old)
 
 
 _POOL = None
